@@ -703,6 +703,13 @@ pub struct WorldOpts {
 
 pub const PRESETS: [&str; 8] = ["random", "crossing", "convoy", "crowd", "lookalikes", "teleport", "stop-and-go", "pack"];
 
+thread_local! {
+    /// C13 only: one object in sixteen is parked (bit-identical detections frame after frame). Not used by the differential
+    /// checks: two tracks left behind at the very same box by one parked object are an exact tie for the next detection,
+    /// which the statements leave open and two runs of the library may resolve differently.
+    pub static PARKED_OBJECTS: std::cell::Cell<bool> = std::cell::Cell::new(false);
+}
+
 pub fn gen_world(rng: &mut Rng, o: &WorldOpts) -> Vec<Obj> {
     let mut objs = vec![];
     let mut truth = 0;
@@ -828,9 +835,9 @@ pub fn gen_world(rng: &mut Rng, o: &WorldOpts) -> Vec<Obj> {
                 ob.feat_drop = pack_feat_drop;
                 continue;
             }
-            // one object in sixteen is parked: it is reported with bit-identical box parameters frame after frame (a
+            // (C13) one object in sixteen is parked: it is reported with bit-identical box parameters frame after frame (a
             // standing object seen by a deterministic detector), so consecutive observations and predictions coincide
-            if !(o.same_region && s > 0) && rng.chance(1.0 / 16.0) {
+            if PARKED_OBJECTS.with(|c| c.get()) && !(o.same_region && s > 0) && rng.chance(1.0 / 16.0) {
                 let ob = objs.last_mut().unwrap();
                 ob.motion = 4;
                 ob.vx = 0.0;
